@@ -180,3 +180,51 @@ Definition c17_check (t : tree) : tree :=
   let nt := t_net t in
   of_bool (net_okb nt && c17_checkb nt (t_nat (t_nth 3 t)) (t_pvs (t_nth 4 t))).
 Definition c17_check_motifs (t : tree) : tree := of_bool (motifs_okb (t_net t) && cover_okb (t_net t)).
+
+(* ---------------------------------------------------------------- *)
+(* THE INDEPENDENT, TABLE-BASED SPECIFICATION (growth 2, audit finding C17-M2).
+   "The motifs containing a vertex" is read off the MOTIF TABLE (the membership lists m_verts), never off
+   adjacency / edge labels: nbrs_lab, others, ids_at, u_of are NOT used below.  The sweep list is used only for
+   the ORDER of the updates.  Proofs/MsgPassT.v proves model = spec = object = this, under table_okb. *)
+Local Open Scope Q_scope.
+(* IDs of the table's motifs whose membership list contains v *)
+Definition motifs_of (nt : net) (v : nat) : list nat :=
+  map m_id (filter (fun m => memb v (m_verts m)) (n_motifs nt)).
+(* u_j for the update of motif id: product over the motifs nu <> id that contain j of H(j, nu) *)
+Definition u_table (nt : net) (H : Hmap) (id : nat) : nat -> Q :=
+  fun j => qprod (map (H j) (filter (fun x => negb (Nat.eqb x id)) (motifs_of nt j))).
+(* H(i, id) := E_{motif id, root i}[ prod over the other vertices j of i's component of u_j ] *)
+Definition step_T (nt : net) (phi : Q) (H : Hmap) (i id : nat) : Hmap :=
+  upd H i id (expectation (motif_graph (find_motif nt id)) i phi (u_table nt H id)).
+Definition sweep_T (nt : net) (phi : Q) (H : Hmap) : Hmap :=
+  fold_left (fun H e => let '(i, j, id) := e in step_T nt phi (step_T nt phi H i id) j id) (n_sweep nt) H.
+Fixpoint sweeps_T (T : nat) (nt : net) (phi : Q) (H : Hmap) : Hmap :=
+  match T with 0%nat => H | Datatypes.S t => sweeps_T t nt phi (sweep_T nt phi H) end.
+(* 1 - (1/N) * sum over the vertices i of the product over the motifs tau containing i of H_T(i, tau) *)
+Definition mp_table (nt : net) (T : nat) (phi : Q) : Q :=
+  1 - (1 / inject_Z (Z.of_nat (length (n_nodes nt))))
+      * qsum (map (fun i => qprod (map (sweeps_T T nt phi H0 i) (motifs_of nt i))) (n_nodes nt)).
+Local Close Scope Q_scope.
+
+(* the motif table is exactly the cover that labels the edges:
+   (i) the IDs of the table are pairwise distinct (no shadowed entry);
+   (ii) every edge of every table motif occurs in the network, in either orientation, labelled with that
+        motif's ID (no phantom motif; every member vertex has an incident edge labelled with the motif) *)
+Definition sweep_has (nt : net) (a b id : nat) : bool :=
+  existsb (fun e => let '(i, j, id') := e in
+                    Nat.eqb id' id && ((Nat.eqb i a && Nat.eqb j b) || (Nat.eqb i b && Nat.eqb j a)))
+          (n_sweep nt).
+Definition table_okb (nt : net) : bool :=
+  nodupb (map m_id (n_motifs nt))
+  && forallb (fun m => forallb (fun e => sweep_has nt (fst e) (snd e) (m_id m)) (m_edges m)) (n_motifs nt).
+(* the cover precondition as the method states it, on the TABLE alone: two motifs with different IDs share at most
+   one vertex (any two distinct vertices of the first are not both vertices of the second).  Stronger than
+   cover_okb (Proofs/MsgPassT.v: net_okb + pairwise_okb -> cover_okb), which only looks at adjacent vertices. *)
+Definition share_le1b (a b : list nat) : bool :=
+  forallb (fun v => forallb (fun w => Nat.eqb v w || negb (memb v b && memb w b)) a) a.
+Definition pairwise_okb (nt : net) : bool :=
+  forallb (fun m1 => forallb (fun m2 => Nat.eqb (m_id m1) (m_id m2) || share_le1b (m_verts m1) (m_verts m2))
+                             (n_motifs nt)) (n_motifs nt).
+(* all preconditions of the table-based theorems, run on every case *)
+Definition c17_check_table (t : tree) : tree :=
+  of_bool (table_okb (t_net t) && cover_okb (t_net t) && net_okb (t_net t) && pairwise_okb (t_net t)).
